@@ -185,7 +185,7 @@ class IndexDomain(ArrNormDomain):
                         continue
                 else:
                     shape.append(d)
-            return Shaped(Tup(shape), v.label + '[..]')
+            return Shaped(Tup(shape), v.label + '[..]', origin=('slice', v, idx))
         return ArrNormDomain.subscript(self, v, idx, node)
 
     def store_subscript(self, target, idx, val, node):
